@@ -125,8 +125,16 @@ func H_C07_pipeline_other_type() {
 	rp := &registeredPipeline{rootNode: l0, registrationPolicy: symPolicy()}
 	pol := rp.registrationPolicy
 	gu.roots.Store(s.p.id, rp)
-	d := s.symDefinition(L)
-	s.b.RegisterPipeline(d.def, d.opts...)
+	// every mutator addressed at (type t, pipeline id) leaves the same-id pipeline of another type alone
+	switch symLen(0, 2) {
+	case 0:
+		d := s.symDefinition(L)
+		s.b.RegisterPipeline(d.def, d.opts...)
+	case 1:
+		s.b.RemovePipeline(s.t, s.p.id)
+	case 2:
+		s.b.RemovePipelineAndNodes(context.Background(), s.t, s.p.id)
+	}
 	var got *registeredPipeline
 	n := 0
 	gu.roots.Range(func(k PipelineID, v *registeredPipeline) bool {
